@@ -2,7 +2,7 @@
    ExtrOcamlBasic only (bool, option, unit, list, prod, sumbool, sumor -> OCaml's own types);
    N, Z, positive, nat stay the extracted inductive types.  No Extract Constant. *)
 From Coq Require Import Extraction ExtrOcamlBasic.
-From BedV Require Import Base LapperModel AlgebraModel GMapModel TextModel ExtSortModel.
+From BedV Require Import Base LapperModel AlgebraModel GMapModel TextModel ExtSortModel BincodeModel BufModel.
 Extraction Language OCaml.
 Extraction "model.ml"
   (* numbers *) N.of_nat N.to_nat N.add N.mul N.sub N.div N.modulo N.eqb N.ltb N.leb N.compare
@@ -16,4 +16,6 @@ Extraction "model.ml"
   (* text *) show_N show_Z parse_uint parse_int show_grange pretty_show show_bed show_npeak show_bpeak show_bgraph
   parse_grange parse_bed parse_npeak parse_bpeak parse_bgraph score_try_from score_from_str p_score show_optional_fields strand_from_str show_strand
   reader_items write_record bytes_eqb
-  (* extsort *) frames dump chunk_read chunk_oracle merger_calls merge_all merge_oracle ext_sort_isort tmp_ok tmp_open_ok.
+  (* extsort *) frames dump chunk_read chunk_oracle merger_calls merge_all merge_oracle ext_sort_isort tmp_ok tmp_open_ok
+  (* bincode record codecs, BufWriter/BufReader stack *) ser_grange de_grange ser_bedrec de_bedrec ser_npeak de_npeak ser_bpeak de_bpeak
+  ser_bgraph de_bgraph de_all dump_buffered chunk_read_buffered.
